@@ -125,7 +125,7 @@ def run(ctx):
                 if len(T) > 1:
                     k = rng.randint(1, len(T) - 1)
                     todo.append([T[:k], T[k:]])
-            for _ in range(40 if ctx.quick else 1500):
+            for _ in range(40 if ctx.quick else 5000):
                 todo.append([b"".join(units_for(facts, rng) for _ in range(rng.randint(1, 5)))
                              for _ in range(rng.randint(1, 3))])
             for reads in todo:
